@@ -10,6 +10,7 @@ CONSTANTS
   MaxCount = 1000
   TickSteps = {1, 3}
   MaxTracked = 4
+  SweepCap = 0
   Depth = 5
 INVARIANT Emit
 CHECK_DEADLOCK FALSE
